@@ -42,7 +42,7 @@ def snap(o, seen=None):
     return repr(o)
 
 
-def api_consistency(obj, new, text, dump_kwargs=None, before=None):
+def api_consistency(obj, new, text, dump_kwargs=None, before=None, pipe=True):
     """the same object through every entry point: dump(path), dump(file object), dumps(), a second dumps();
     load(path), load(file object), loads().  Returns a list of inconsistencies (empty when all agree)."""
     import os
@@ -66,18 +66,33 @@ def api_consistency(obj, new, text, dump_kwargs=None, before=None):
         if obj.dumps(**kw) != text:
             problems.append("a second dumps() differs from the first")
         outs = []
-        for how in ("path", "file", "loads"):
+        for how in ("path", "file", "loads") + (("pipe",) if pipe else ()):
             o = new()
             if how == "path":
                 o.load(p1)
             elif how == "file":
                 with open(p1) as f:
                     o.load(f)
+            elif how == "pipe":
+                # a stream that cannot seek: the text arrives through an OS pipe
+                import threading
+                rfd, wfd = os.pipe()
+
+                def feed():
+                    with os.fdopen(wfd, "w") as w:
+                        w.write(a)
+                th = threading.Thread(target=feed)
+                th.start()
+                try:
+                    with os.fdopen(rfd, "r") as f:
+                        o.load(f)
+                finally:
+                    th.join()
             else:
                 o.loads(text)
             outs.append(o.dumps())
         if len(set(outs)) != 1:
-            problems.append("load(path), load(file object) and loads() give different objects")
+            problems.append("load(path), load(file object), loads() and load(pipe) give different objects")
         if before is not None and snap(obj) != before:
             problems.append("writing changed the object itself (its public state before and after dump() differs)")
     except Exception as e:
